@@ -413,7 +413,12 @@ H_RecvRet(s, r, l) ==
   IF ~r.res.ok
   THEN \* an error result consumes nothing the observer can name; a contradictory or over-limit delivery is dropped with it
        R(SetL(s, k, [y EXCEPT !.inq = SelectSeq(@, LAMBDA e : ~e.contra /\ ~(e.complete /\ e.aborted)), !.broken = TRUE, !.errTold = TRUE]),
-         Chk("C13_PeerError", ~(y.pDet /\ y.pDetFirst /\ y.pDetErr # "" /\ ~y.errTold) \/ r.res.cond = y.pDetErr, l, "recv"))
+         Chk("C13_PeerError", ~(y.pDet /\ y.pDetFirst /\ y.pDetErr # "" /\ ~y.errTold) \/ r.res.cond = y.pDetErr, l, "recv")
+         \* recv fails only for a reason: the connection / session / link has stopped or is stopping, the call was cancelled,
+         \* or the peer's transfers were contradictory, aborted or beyond the credit issued
+       + Chk("C10_NoSpuriousError", \/ ~ConnUp(s) \/ s.garbage \/ y.pDet \/ y.eDet \/ ~y.pAtt \/ y.broken \/ r.res.class = "Cancelled" \/ s.appTeardown
+                                    \/ SessByE(s, y.ech) = 0 \/ ~LiveE(s.ss[SessByE(s, y.ech)]) \/ s.ss[SessByE(s, y.ech)].pEnded
+                                    \/ \E n \in DOMAIN y.inq : y.inq[n].contra \/ y.inq[n].aborted \/ ~y.inq[n].within, l, r.res.class))
   ELSE IF j = 0 THEN R(s, Fail("C10_NotBefore", l, "") + (IF \E n \in DOMAIN y.inq : y.inq[n].m = r.res.m /\ y.inq[n].contra THEN Fail("C10_Contradiction", l, "") ELSE 0)
                                 + (IF \E n \in DOMAIN y.inq : y.inq[n].m = r.res.m /\ y.inq[n].aborted THEN Fail("C10_Abort", l, "") ELSE 0))
   ELSE LET e == y.inq[j] IN
